@@ -11,7 +11,9 @@ RULE = ('helpers through eqsig.fns.*: interp2d (1..12 strictly increasing nodes:
         'y given / None, queries below the first node must raise AssertionError; exact), calc_roll_av_vals (len 1..40, steps 1..len and a few above, forward/backward/centre/center, '
         'constant series; rtol 1e-11 of max|v| (running-sum cancellation); length kept and constants preserved evaluated on the implementation output), calc_step_fn_vals_error (len 1..30, pow 1,2,3, positive, negative and mixed data, '
         'dir None/down/up; rtol 1e-11 of npts*max|v|^p; also compared with the definition itself), calc_step_fn_steps_vals (given split and argmin split; '
-        'cases whose argmin or dir comparison is decided by less than 1e-9 are counted fragile and skipped; splits with an empty side give NaN and are counted degenerate); '
+        'cases whose argmin or dir comparison is decided by less than 1e-9 are counted fragile and skipped; a split with an empty side must give NaN for that side and the mean of the other: '
+        'ind = 0 and ind = npts-1 passed explicitly as Python int and as np.int64 on records whose best-fit split is elsewhere, the argmin split when it is the first or last sample, and '
+        'ind = argmin of a dir=down / dir=up error curve (first-sample spike followed by a step the other way, so the constrained split is 0; the model takes the split from its own constrained curve)); '
         'design spectra: c_h_factor (scalar and list), sd_nzs, t_eff point-checked by `interval` against the regenerated Coq definitions on a period grid straddling every segment boundary '
         '(b-ulp, b, b+ulp), T=0, negative T and unknown site class (must raise ValueError), tol 1e-12; relational clauses S_d = C_h T^2 Z N R, boundary jumps and t_eff(lam d_c) = 3 lam '
         'evaluated on implementation outputs; non-trivial = helper input with >= 3 samples/nodes that is not constant, or a design-spectrum call with T > 0')
@@ -124,7 +126,7 @@ def helper_cases(rep, rng, tier):
     import eqsig
     from eqsig import fns
     cases = []
-    stats = {'fragile_skipped': 0, 'degenerate_nan_skipped': 0}
+    stats = {'fragile_skipped': 0, 'degenerate_nan_side': 0}
     N = 1 if tier == 'quick' else 10
 
     def bad(site, args, r):
@@ -243,6 +245,92 @@ def helper_cases(rep, rng, tier):
                               {'function': 'eqsig.fns.calc_step_fn_vals_error', 'args': args, 'impl': out}, site, klass='step_err/int-dtype'))
 
     # ---- calc_step_fn_steps_vals
+    def optq(x):
+        return 'None' if x != x else '(Some %s)' % q(x)
+
+    def levels_n(site, v, ind_arg, indtxt, args, klass, nontriv):
+        """one call whose split may leave a side empty; a NaN level is shipped as None (KStepLevelsN)"""
+        import warnings
+        inp = np.array(v, dtype=float)
+
+        def call():
+            with warnings.catch_warnings():
+                warnings.simplefilter('ignore')     # numpy: "Mean of empty slice"
+                return fns.calc_step_fn_steps_vals(inp) if ind_arg is None else fns.calc_step_fn_steps_vals(inp, ind_arg)
+
+        r = guarded(call)
+        if isinstance(r, ImplError):
+            bad(site, args, r)
+            return
+        pre, post = float(r[0]), float(r[1])
+        if any(x in (float('inf'), float('-inf')) for x in (pre, post)):
+            bad(site, args, 'non-finite level %r' % ((pre, post),))
+            return
+        coq = 'KStepLevelsN %s %s %s %s %s' % (qlist(v), indtxt, optq(pre), optq(post), q(1e-13))
+        cases.append(Case(coq, {'function': 'eqsig.fns.calc_step_fn_steps_vals', 'args': args, 'impl': [repr(pre), repr(post)]}, site,
+                          nontrivial=nontriv, klass=klass))
+
+    def clear_argmin(e, v):
+        """index of the minimum of an implementation error curve, or None when it is decided by less than 1e-9 of the scale"""
+        es = sorted(fl(e))
+        sc = max(1.0, max(abs(a) for a in v)) * len(v)
+        if len(es) > 1 and es[1] - es[0] <= 1e-9 * sc:
+            return None
+        return int(np.argmin(e))
+
+    # split at the very first / very last sample, passed explicitly (Python int and numpy integer) on records whose best-fit split is elsewhere
+    for k in range(40 * N):
+        n = gens.small_len(rng, 3, 30)
+        v, kind = gen_values(rng, n, kind=rng.choice(['step', 'step', 'int', 'neg', 'float', 'offset', 'dyadic']))
+        e = guarded(fns.calc_step_fn_vals_error, np.array(v, dtype=float))
+        if isinstance(e, ImplError):
+            bad('calc_step_fn_vals_error[pow=1,dir=None]', {'values': v}, e)
+            continue
+        best = clear_argmin(e, v)
+        ind = [0, 0, 0, n - 1][k % 4]
+        as_np = (k // 4) % 2 == 1
+        ind_arg = np.int64(ind) if as_np else ind
+        levels_n('calc_step_fn_steps_vals[ind]', v, ind_arg, '(Some %d%%nat)' % ind,
+                 {'values': v, 'ind': ind, 'ind_type': 'np.int64' if as_np else 'int'},
+                 'step_levels/ind=%s/%s/%s' % ('0' if ind == 0 else 'last', 'np.int64' if as_np else 'int', kind),
+                 best is not None and best != ind and len(set(v)) > 1)
+
+    # split chosen by the caller from a direction-constrained error curve: steps_vals(values, argmin(vals_error(values, dir=d)));
+    # spike / trough at the first sample followed by a step the other way: the only admissible split is 0, the unconstrained best fit is not.
+    # The model takes the split from ITS OWN constrained curve (argmin (step_err 1 d v)), so the whole chain is compared.
+    for k in range(30 * N):
+        d = ['down', 'down', 'up'][k % 3]
+        sgn = 1.0 if d == 'down' else -1.0
+        n1, n2 = rng.randint(2, 8), rng.randint(2, 8)
+        lo_l, st_h = rng.randint(-3, 3), rng.randint(2, 6)
+        sc = rng.choice([1.0, 0.5, 0.125])
+        jit = (lambda: rng.choice([0, 0, 0, 1, -1]) * 0.25) if k % 2 else (lambda: 0)
+        v = [lo_l + st_h + rng.randint(2, 5) + st_h] + [lo_l + jit() for _ in range(n1)] + [lo_l + st_h + jit() for _ in range(n2)]
+        if k % 5 == 4:                      # ordinary records too: the constrained split is wherever it is
+            v, _ = gen_values(rng, len(v), kind=rng.choice(['step', 'int', 'dyadic']))
+        v = fl([sgn * sc * x for x in v])
+        if dir_fragile(v):
+            stats['fragile_skipped'] += 1
+            continue
+        e_d = guarded(fns.calc_step_fn_vals_error, np.array(v, dtype=float), dir=d)
+        e_0 = guarded(fns.calc_step_fn_vals_error, np.array(v, dtype=float))
+        if isinstance(e_d, ImplError) or isinstance(e_0, ImplError):
+            bad('calc_step_fn_vals_error[pow=1,dir=%s]' % d, {'values': v, 'dir': d}, e_d if isinstance(e_d, ImplError) else e_0)
+            continue
+        ind, best = clear_argmin(e_d, v), clear_argmin(e_0, v)
+        if ind is None:
+            stats['fragile_skipped'] += 1
+            continue
+        cases.append(Case('KStepErr 1 %s %s %s %s' % (DIRS[d], qlist(v), qlist(fl(e_d)), q(1e-11)),
+                          {'function': 'eqsig.fns.calc_step_fn_vals_error', 'args': {'values': v, 'pow': 1, 'dir': d}, 'impl': fl(e_d)},
+                          'calc_step_fn_vals_error[pow=1,dir=%s]' % d, nontrivial=len(set(v)) > 1, klass='step_err/p1/%s/first-sample-spike' % d))
+        ind_arg = np.argmin(e_d) if k % 2 else ind          # the numpy integer np.argmin returns, or a Python int
+        levels_n('calc_step_fn_steps_vals[ind=argmin of the dir=%s curve]' % d, v, ind_arg,
+                 '(Some (argmin (step_err 1%%nat %s %s)))' % (DIRS[d], qlist(v)),
+                 {'values': v, 'ind': ind, 'ind_from': "argmin(calc_step_fn_vals_error(values, dir='%s'))" % d, 'ind_type': 'np.int64' if k % 2 else 'int'},
+                 'step_levels/ind-from-dir=%s/split=%s' % (d, '0' if ind == 0 else ('last' if ind == len(v) - 1 else 'inside')),
+                 best is not None and best != ind)
+
     for k in range(120 * N):
         n = gens.small_len(rng, 3, 30)
         v, kind = gen_values(rng, n, kind=rng.choice(['step', 'step', 'int', 'neg', 'float', 'offset', 'dyadic']))
@@ -260,7 +348,9 @@ def helper_cases(rep, rng, tier):
                 continue
             ind = int(np.argmin(e))
             if ind == 0 or ind == n - 1:
-                stats['degenerate_nan_skipped'] += 1
+                # an empty side: the level of that side must be NaN (the mean of no samples), the other side its mean
+                stats['degenerate_nan_side'] += 1
+                levels_n('calc_step_fn_steps_vals[argmin]', v, None, 'None', {'values': v, 'ind': None}, 'step_levels/argmin-empty-side/' + kind, True)
                 continue
             r = guarded(fns.calc_step_fn_steps_vals, inp)
             indtxt = 'None'
@@ -501,7 +591,8 @@ def replay_call(replay):
         v = a['values'] if a.get('dtype') == 'int' else np.array(a['values'], dtype=float)
         return fns.calc_step_fn_vals_error(v, pow=a.get('pow', 1), dir=a.get('dir'))
     if name == 'calc_step_fn_steps_vals':
-        return fns.calc_step_fn_steps_vals(np.array(a['values'], dtype=float), a['ind'])
+        ind = np.int64(a['ind']) if a.get('ind_type') == 'np.int64' else a['ind']
+        return fns.calc_step_fn_steps_vals(np.array(a['values'], dtype=float), ind)
     if name == 'c_h_factor':
         return ds.c_h_factor(a['period'], a['site_class'])
     if name == 'sd_nzs':
